@@ -13,6 +13,8 @@ type Dials[T any] struct {
 	params      Params[T]
 	cbch        chan<- userCallbackEvent
 	monCtl      chan<- verifyEnable[T]
+	// monDone is closed when the monitor goroutine exits
+	monDone chan struct{}
 }
 
 // View returns the configuration struct populated.
